@@ -158,6 +158,20 @@ func (in *Interp) intrinsic(caller *frame, name string, args []value, pos token.
 			}
 		}
 		return Tuple{st, tFalse}
+	case "SwapCase":
+		// one letter (index >= 3) of an encoder's output changes case: a different, still well-formed text
+		st := args[0].(*Str)
+		if st.Kind == sGhost && st.G.Ctor == "b64" {
+			return Tuple{ghostStr("b64case", st.G.Args[0].(*Str)), tTrue}
+		}
+		if c, ok := st.Concrete(); ok {
+			for i := 3; i < len(c); i++ {
+				if ch := c[i] | 0x20; ch >= 'a' && ch <= 'z' {
+					return Tuple{lit(c[:i] + string(c[i]^0x20) + c[i+1:]), tTrue}
+				}
+			}
+		}
+		return Tuple{st, tFalse}
 	case "Concurrent":
 		in.concurrent(args[0].(*Slice).Data)
 		return nil
